@@ -148,6 +148,28 @@ func main() {
 			ops = append(ops, [3]int{n, bs, c.CountEvSince(before, "PersistBegin", "LoadEnd", "RemoveEnd")})
 		}
 	}
+	// EVERY directory operation of some small builds fails once (Offline.tla's Fail action at every step):
+	// quick: 2 builds, failure before the operation; thorough: 12 builds, before and half-way
+	exN, exBS, exStages := []int{3, 11}, []int{0}, []string{"before"}
+	if *tier == "thorough" {
+		exN, exBS, exStages = []int{1, 2, 3, 11, 12, 21}, []int{0, 1}, []string{"before", "partial"}
+	}
+	for _, n := range exN {
+		for _, bs := range exBS {
+			nops := 0
+			for _, o := range ops {
+				if o[0] == n && o[1] == bs {
+					nops = o[2]
+				}
+			}
+			for k := 0; k < nops; k++ {
+				for _, st := range exStages {
+					run++
+					one(c, run, runSpec{N: n, BS: bs, SegV: 1 + run%2, Fault: k, Stage: st})
+				}
+			}
+		}
+	}
 	// one injected failure at a sampled directory operation of a sampled build
 	nf := 60
 	if *tier == "thorough" {
